@@ -1525,6 +1525,90 @@ thread_local! {
     static REPLAY_UNSERVABLE: std::cell::RefCell<Option<Vec<u8>>> = const { std::cell::RefCell::new(None) };
 }
 
+// ------------------------------------------------------------------ recursive target types
+
+/// Target types whose nesting depth is chosen by the INPUT, not by the type (linked list, optional chain, tree).
+#[derive(Deserialize)]
+#[allow(dead_code)]
+enum RecList {
+    Nil,
+    Cons(Box<RecList>),
+}
+#[derive(Deserialize)]
+#[allow(dead_code)]
+struct RecOpt {
+    next: Option<Box<RecOpt>>,
+}
+#[derive(Deserialize)]
+#[allow(dead_code)]
+struct RecTree {
+    kids: Vec<RecTree>,
+}
+
+/// Child process of the recursion probe: exit 0 when decoding returned (value or error).  A stack overflow kills
+/// the process with a signal, which is what the parent looks for.  The decoded value is leaked on purpose:
+/// dropping a 10^6-deep chain of boxes overflows the stack too, and that is the value's problem, not the decoder's.
+pub fn recprobe_child(kind: &str, depth: usize) -> i32 {
+    let input: Vec<u8> = match kind {
+        "enum-box" | "option-box" | "vec-tree" => {
+            let mut v = vec![1u8; depth];
+            v.push(0);
+            v
+        }
+        _ => return 3,
+    };
+    match kind {
+        "enum-box" => std::mem::forget(postcard::from_bytes::<RecList>(&input)),
+        "option-box" => std::mem::forget(postcard::from_bytes::<RecOpt>(&input)),
+        _ => std::mem::forget(postcard::from_bytes::<RecTree>(&input)),
+    }
+    0
+}
+
+/// Parent side: hostile inputs of growing depth against recursive target types, each in a child process.
+fn c04_recursive_types(t: &mut Tctx) {
+    if cfg!(miri) || t.tid != 0 {
+        return;
+    }
+    let exe = match std::env::current_exe() {
+        Ok(e) => e,
+        Err(e) => {
+            t.st.inconclusive(format!("recursion probe: cannot find the worker binary: {}", e));
+            return;
+        }
+    };
+    for kind in ["enum-box", "option-box", "vec-tree"] {
+        for depth in [1_000usize, 10_000, 100_000, 1_000_000, 4_000_000] {
+            t.st.eval();
+            t.st.count("recursive_type_probes");
+            t.st.nontrivial(fp_mix(fp(kind.as_bytes()), depth as u64));
+            let out = std::process::Command::new(&exe).arg("RECPROBE").arg(kind).arg(depth.to_string()).stdout(std::process::Stdio::null()).stderr(std::process::Stdio::null()).status();
+            match out {
+                Ok(st) if st.success() => t.st.count("recursive_type_probes_returned"),
+                Ok(st) => {
+                    use std::os::unix::process::ExitStatusExt;
+                    t.st.violation(
+                        "C04:stack-exhaustion:recursive-target-type",
+                        format!(
+                            "decoding {} bytes (0x01 x {} then 0x00) into a recursive type ({}) killed the process ({}): the decoder recurses once per nesting level chosen by the input and has no depth limit",
+                            depth + 1,
+                            depth,
+                            kind,
+                            st.signal().map(|s| format!("signal {}", s)).unwrap_or_else(|| format!("exit status {:?}", st.code()))
+                        ),
+                        vec![kv("kind", "recursive-type"), kv("type", kind), kv("depth", depth.to_string())],
+                    );
+                    break;
+                }
+                Err(e) => {
+                    t.st.inconclusive(format!("recursion probe: cannot start the child process: {}", e));
+                    return;
+                }
+            }
+        }
+    }
+}
+
 fn c04_unservable(t: &mut Tctx) {
     let fixed = REPLAY_UNSERVABLE.with(|r| r.borrow().clone());
     let n = if fixed.is_some() { 1 } else { t.cfg.scale(20, 4000, 100_000) };
@@ -1768,6 +1852,8 @@ pub fn run_c04(cfg: &Cfg) -> Report {
     rep.stats.merge(s);
     let s = parallel(cfg, 4, |t| c04_flavor_histories(t));
     rep.stats.merge(s);
+    let s = parallel(&Cfg { threads: 1, ..cfg.clone() }, 5, |t| c04_recursive_types(t));
+    rep.stats.merge(s);
     rep.floor("reader_flavor_histories", 100);
     rep.floor("deserializer_reuse_cases", 50);
     finish_c04(&mut rep);
@@ -1885,6 +1971,8 @@ fn replay(cfg: &Cfg, which: &str, p: &std::path::Path) -> Stats {
             REPLAY_CONCRETE.with(|r| *r.borrow_mut() = Some((name, input.clone())));
             c04_concrete_all(t, true);
             REPLAY_CONCRETE.with(|r| *r.borrow_mut() = None);
+        } else if kind == "recursive-type" && which == "C04" {
+            c04_recursive_types(t);
         } else if kind == "flavor-history" && which == "C04" {
             let cap: usize = m.get("scratch").or(m.get("input")).and_then(|s| s.parse().ok()).unwrap_or(0);
             let plan = parse_flavor_plan(m.get("plan").map(|s| s.as_str()).unwrap_or(""));
